@@ -150,6 +150,7 @@ func (x *Exec) verify() {
 			ob.Cover = true
 		}
 	}
+	var antecedents map[int][]*Term
 	for _, r := range x.returns {
 		penv := x.specEnv(x.entry, r.St)
 		for i := 0; i < res.Len(); i++ {
@@ -184,6 +185,16 @@ func (x *Exec) verify() {
 		}
 		for i, c := range fc.Ensures {
 			x.curPos = fmt.Sprintf("%s:%d", x.contractFile(), c.Line)
+			if imp, ok := c.E.(*EBinary); ok && imp.Op == "==>" && !fc.Lemma {
+				// vacuity guard: the antecedent of a conditional clause must be satisfiable at some return
+				func() {
+					defer func() { recover() }() // an antecedent that cannot be evaluated on its own is skipped
+					if antecedents == nil {
+						antecedents = map[int][]*Term{}
+					}
+					antecedents[i] = append(antecedents[i], o.And(r.St.Guard, penv.evalBool(imp.L)))
+				}()
+			}
 			x.catGoal = true
 			goal := x.evalClause(penv, c)
 			x.catGoal = false
@@ -219,6 +230,12 @@ func (x *Exec) verify() {
 				x.oblige("lock", strings.TrimPrefix(k, "held:"), []string{"C19.lock"}, "lock state at exit equals lock state at entry", r.St.Guard,
 					o.Eq(v.(*Term), x.entry.Ghost[k].(*Term)))
 			}
+		}
+	}
+	for i, c := range fc.Ensures {
+		if as := antecedents[i]; len(as) > 0 {
+			ob := x.oblige("cover", fmt.Sprintf("antecedent(%d)", i), nil, "the antecedent of the clause is satisfiable: "+c.Text, o.True(), o.Not(o.Or(as...)))
+			ob.Cover = true
 		}
 	}
 }
